@@ -223,6 +223,21 @@ def gen_c08(g, lines, k):
     lines.append("wire sleep 30")
     lines.append("wire drain %s" % hx(be))
     probe("last-%d" % k)
+    # well-formed requests of the largest size a datagram can have, routed back to their (self-learned) sender: with the
+    # proxy's own Via and `received` added they no longer fit into a datagram, the send fails - and the listener goes on
+    for j in range(3):
+        v = Via("UDP", "127.0.2.1", UP, [("branch", "z9hG4bKBIG" + g.word(ALNUM.upper(), 6, 9)), ("rport", "")])
+        hs = [("Via", v.text()), ("Route", "<sip:127.0.2.1:%d;lr>" % UP), ("From", "<sip:p@ua.test>;tag=1"), ("To", "<sip:x@far.example.org>"),
+              ("Call-ID", "big-%d-%d" % (k, j)), ("CSeq", "1 MESSAGE"), ("Content-Type", "text/plain"), ("Subject", "x" * 40)]
+        empty = msg("MESSAGE sip:x@far.example.org SIP/2.0", hs)
+        pad = 65507 - len(empty) - 5                       # Content-Length grows from "0" to five digits
+        big = msg("MESSAGE sip:x@far.example.org SIP/2.0", hs, b"B" * pad)
+        assert len(big) == 65507 - 1 or len(big) == 65507, len(big)
+        lines.append("wire udp %s %s %s" % (hx(ua), hx("%s:%d" % (lip, P)), hx(big)))
+        lines.append("wire sleep 20")
+        g.count("wire_largest_datagrams")
+    lines.append("wire drain %s" % hx(ua))
+    probe("after-largest-%d" % k)
     lines.append("wire end")
 
 def gen_c15(g, lines, k):
